@@ -104,3 +104,18 @@ for sid in sorted(os.listdir(os.path.join(V, "seeded"))):
         meta["checks_passing"] = sorted(p for p, v in r.items() if v["rc"] == 0)
     json.dump(meta, open(os.path.join(d, "meta.json"), "w"), indent=1, sort_keys=True)
     print(sid, meta.get("confirmed"), meta.get("checks_reporting_violation"), meta.get("checks_analysis_broken"))
+
+# behaviour-preserving refactorings: fold the latest detection run into their meta.json
+bd = os.path.join(V, "benign")
+for sid in sorted(os.listdir(bd)) if os.path.isdir(bd) else []:
+    d = os.path.join(bd, sid)
+    mp, dt = os.path.join(d, "meta.json"), os.path.join(d, "detection.json")
+    if not (os.path.exists(mp) and os.path.exists(dt)):
+        continue
+    meta = json.load(open(mp))
+    r = json.load(open(dt))
+    meta["checks_reporting_violation"] = {p: v["rules"] for p, v in sorted(r.items()) if v["rc"] == 1}
+    meta["checks_analysis_broken"] = sorted(p for p, v in r.items() if v["rc"] == 2)
+    meta["checks_analysis_broken_reason"] = {p: v["first"][:200] for p, v in sorted(r.items()) if v["rc"] == 2}
+    meta["checks_passing"] = sorted(p for p, v in r.items() if v["rc"] == 0)
+    json.dump(meta, open(mp, "w"), indent=1, sort_keys=True)
